@@ -81,9 +81,10 @@ theorem visit_flat_key_collides (pre suf : List Nat) (a b : Nat) (hb : 2 ≤ b) 
 example : (2 : Nat) ≤ 2 ∧ 2 < 3 ∧ (∀ m ∈ ([4] : List Nat), 0 < m) ∧ (∀ m ∈ ([] : List Nat), 0 < m) := by decide
 
 /-- alternative counts that never decrease from left to right (single variants, equal types - everything the library and its
-    tests do -, 2 x 3): the flattened dispatcher is right, which is why such inputs cannot tell the two apart -/
+    tests do -, 2 x 3): the flattened dispatcher answers what the real one answers, which is why such inputs cannot tell the two apart -/
 theorem visit_flat_key_ok_of_sorted (sizes act : List Nat) (hs : sizes.Pairwise (· ≤ ·)) (h : validIdx act sizes = true) :
-    FlatKey.flatVisit sizes act = .ok act := FlatKey.flatVisit_ok_of_sorted sizes act hs h
+    FlatKey.flatVisit sizes act = visitWithIndex sizes act := by
+  rw [FlatKey.flatVisit_ok_of_sorted sizes act hs h, visit_dispatch sizes act h]
 
 example : ([2, 3, 3] : List Nat).Pairwise (· ≤ ·) ∧ validIdx [1, 2, 0] [2, 3, 3] = true := by decide
 
